@@ -4,7 +4,8 @@ patch=$(realpath "$1"); shift
 cd /repo || exit 2
 if ! git diff --quiet; then echo "/repo has local changes; refusing"; exit 2; fi
 git apply "$patch" || { echo "patch does not apply"; exit 2; }
-trap 'git -C /repo checkout -- . ; git -C /repo clean -fdq' EXIT
+# undo the change, and the files the translator regenerated from the changed tree
+trap 'git -C /repo checkout -- . ; git -C /repo clean -fdq; git -C /verif checkout -- lean/PgsVerif/Generated' EXIT
 for pid in "$@"; do
   (cd /verif && ./check "$pid" 2>/dev/null | grep -E "^(VIOLATION|OK|KNOWN)" | head -5)
   echo "exit=$? ($pid)"
